@@ -17,6 +17,7 @@ VERIF = os.path.dirname(os.path.dirname(os.path.abspath(__file__)))
 SPEC = os.path.join(VERIF, "spec")
 HARNESS = os.path.join(VERIF, "harness")
 REPO = os.environ.get("VERIF_REPO", "/repo")
+OUTDIR = os.environ.get("VERIF_OUT") or os.path.dirname(os.path.dirname(os.path.abspath(__file__)))     # evidence/ and replays/ (experiments redirect them)
 TLA_CP = "/opt/veriftools/tla/tla2tools.jar:/opt/veriftools/tla/CommunityModules-deps.jar"
 GOENV = dict(GOFLAGS="-mod=mod", GOPROXY="off", GOSUMDB="off", GOTOOLCHAIN="local")
 NCPU = os.cpu_count() or 4
@@ -65,7 +66,15 @@ class Ctx:
             return self._harness[key]
         out = os.path.join(self.scratch, "harness-" + key)
         env = dict(os.environ, **GOENV)
-        shutil.copyfile(os.path.join(REPO, "go.sum"), os.path.join(HARNESS, "go.sum"))
+        hdir = HARNESS
+        if REPO != "/repo":
+            # experiments only (tools/try_refactor_par.sh): build against a scratch copy of the library, from a scratch copy of the harness
+            hdir = os.path.join(self.scratch, "harness-src")
+            if not os.path.isdir(hdir):
+                shutil.copytree(HARNESS, hdir)
+                gm = os.path.join(hdir, "go.mod")
+                open(gm, "w").write(open(os.path.join(HARNESS, "go.mod")).read().replace("=> /repo", "=> " + REPO))
+        shutil.copyfile(os.path.join(REPO, "go.sum"), os.path.join(hdir, "go.sum"))
         cmd = ["go", "build", "-tags", "verif", "-o", out]
         if os.environ.get("VERIF_COVER"):       # statement coverage of the library under the corpus (tools/coverage.sh)
             cmd += ["-cover", "-covermode=atomic", "-coverpkg=github.com/contiv/libOpenflow/...,./..."]
@@ -73,7 +82,7 @@ class Ctx:
             cmd.append("-race")
         cmd.append("./cmd/harness")
         t = time.time()
-        p = subprocess.run(cmd, cwd=HARNESS, env=env, capture_output=True, text=True)
+        p = subprocess.run(cmd, cwd=hdir, env=env, capture_output=True, text=True)
         if p.returncode != 0:
             raise Infra("harness build failed (does /repo compile?):\n" + p.stdout + p.stderr)
         log("[%s] built harness (%s) in %.1fs" % (self.pid, key, time.time() - t))
@@ -342,8 +351,8 @@ def finish(ctx, level, rule, violations, known_lines, assumptions, exhaustive=Fa
     cov.update(ctx.extra)
     ev = dict(property_id=ctx.pid, tier=ctx.tier, seed=ctx.seed, level=level, coverage=cov,
               assumptions=assumptions, wall_s=round(wall, 2), violations=len(violations))
-    os.makedirs(os.path.join(VERIF, "evidence"), exist_ok=True)
-    with open(os.path.join(VERIF, "evidence", ctx.pid + ".json"), "w") as fh:
+    os.makedirs(os.path.join(OUTDIR, "evidence"), exist_ok=True)
+    with open(os.path.join(OUTDIR, "evidence", ctx.pid + ".json"), "w") as fh:
         json.dump(ev, fh, indent=1)
         fh.write("\n")
     for k in known_lines:
@@ -357,7 +366,7 @@ def finish(ctx, level, rule, violations, known_lines, assumptions, exhaustive=Fa
 
 
 def save_replay(pid, name, obj):
-    d = os.path.join(VERIF, "replays", pid)
+    d = os.path.join(OUTDIR, "replays", pid)
     os.makedirs(d, exist_ok=True)
     p = os.path.join(d, name + ".json")
     with open(p, "w") as fh:
